@@ -127,6 +127,30 @@ NEEDS = {
                   'accepted set_mtu whose rounded size equals the current one while mtu or align differ'),
     'C20-r2-m2': ('upipe_agg_control(): partial aggregate output whenever the output-size helper handled the command (getter included)',
                   'get_output_size called while a partial aggregate is held'),
+    'C01-r3-m1': ('ubuf_block_split(): head_block->cached_end_ubuf no longer set',
+                  'block that already had an append, split before the last segment, tail freed, another append on the head'),
+    'C01-r3-m2': ('helper_ubuf_mgr provide_ubuf_mgr(): release dropped in the "same manager, same flow format" shortcut',
+                  'a provider that hands out the same manager again (request replayed by set_output / set_flow_def)'),
+    'C04-r3-m1': ('upipe_dup_set_flow_def(): output sub-pipes without output are skipped',
+                  'set_flow_def(A), sub-pipe allocated but not connected, set_flow_def(B), then set_output + input: stale definition A presented'),
+    'C04-r3-m2': ('upipe_qsink_set_flow_def(): flow_def_sent reset only when uref_flow_cmp_def() differs',
+                  'new definition with the same def string and other attributes after a buffer went through'),
+    'C05-r3-m1': ('helper_output _output(): upipe_use(output) moved after throw_need_output',
+                  'output rejects the definition and a probe answers need_output by plugging another output'),
+    'C05-r3-m2': ('upipe_buffer_input(): drain-first gate removed',
+                  'a buffer held because it does not fit, then a smaller one that fits before the idler runs (or max_size raised)'),
+    'C06-r3-m1': ('upipe_qsink_flush(): upump_stop dropped',
+                  'event loop attached, queue sink stalled with a spooled buffer, flush during the stall, then the consumer pops'),
+    'C06-r3-m2': ('upipe_work_freeze(): frozen set before the result of the freeze is known',
+                  'worker on a transfer manager without mutex, a control command the worker forwards (set_option)'),
+    'C12-r3-m1': ('upipe_register_request(): registered set after the control call',
+                  'provider answering inside REGISTER, requester unregistering from its callback, request replayed by set_output'),
+    'C12-r3-m2': ('helper_bin_input store_bin_input(): withdrawal skipped when the new inner is NULL',
+                  'bin that stores a NULL inner and plugs a new one later while an upstream request is registered'),
+    'C20-r3-m1': ('_upipe_fsrc_get_size(): lseek(SEEK_END) then rewind to 0',
+                  'get_size on a file source whose descriptor is not at offset 0'),
+    'C20-r3-m2': ('upipe_blit_sub_provide_flow_format(): rounding remainder subtracted from roffset instead of roffset_r',
+                  'blit on a 4:2:0 background, sub-pipe rectangle with an odd right offset + margin'),
     'C02-r2-m1': ('ubuf_block_truncate(ubuf, 0): cached_ubuf / cached_offset not reset',
                   'segmented block whose last lookup ended in a later segment, truncate to 0 (segment structure recycled as another live handle, pool depth >= 1), refill by append, first access beyond the old cached offset'),
     'C02-r2-m2': ('ubuf_block_delete(): in-place compaction guarded by a single-owner test made on the head segment',
